@@ -38,9 +38,9 @@ pub const CTORS: &[Ctor] = &[
 ];
 
 /// Names probed at every site: variables, template arguments, fields, defs, a defset, an undeclared name.
-pub const POOL: &[&str] = &["u", "w", "p", "q", "f", "g", "x", "y", "s", "bp", "zz", "bv"];
+pub const POOL: &[&str] = &["u", "w", "p", "q", "f", "g", "x", "y", "s", "bp", "zz", "bv", "h2"];
 
-pub const WRAPPERS: usize = 19;
+pub const WRAPPERS: usize = 20;
 
 /// The probe name inside one of the use positions the indexer visits.
 pub fn wrap(w: usize, n: &str) -> E {
@@ -66,6 +66,8 @@ pub fn wrap(w: usize, n: &str) -> E {
         // (the variable is not used: it is only declared when the sequence is a list, which the probe names are not)
         17 => E::BForeach("e".into(), Box::new(id(n)), Box::new(int(0))),
         18 => E::BFoldl(Box::new(id(n)), Box::new(E::List(vec![int(1)])), "a".into(), "b".into(), Box::new(E::Bang("!add".into(), None, vec![id("a"), id("b")]))),
+        // inside a !foreach body that has no computable type
+        19 => E::BForeach("e".into(), Box::new(E::List(vec![int(1)])), Box::new(E::Cond(vec![(E::Bool(true), E::Bang("!add".into(), None, vec![id("e"), id(n)]))]))),
         _ => E::BFilter("e".into(), Box::new(E::List(vec![int(1), int(2)])), Box::new(E::Bang("!eq".into(), None, vec![id("e"), id(n)]))),
     }
 }
@@ -168,6 +170,18 @@ impl Gen {
             parents: vec![CRef::with("Base", vec![def_arg])],
             body: Some(body),
         });
+        // two parents: the arguments of the second see the fields inherited from the first
+        let second_f = self.probe("f");
+        let second_u = self.probe("u");
+        let second_h2 = self.probe("h2");
+        out.push(Item::Def {
+            doc: vec![],
+            blank: false,
+            name: Some(format!("dd{tag}")),
+            parents: vec![CRef::with("Base", vec![int(1)]), CRef::with("Base2", vec![second_f])],
+            body: Some(vec![BI::Field { doc: vec![], blank: false, ty: Ty::Int, name: self.fresh(), init: Some(self.probe("h2")) }]),
+        });
+        out.push(Item::Def { doc: vec![], blank: false, name: Some(format!("de{tag}")), parents: vec![CRef::with("Base2", vec![second_u]), CRef::with("Base", vec![second_h2])], body: None });
         out.push(Item::Defm { name: Some(format!("m{tag}")), parents: vec![CRef::with("MM", vec![defm_arg])] });
     }
 
@@ -286,6 +300,15 @@ fn prelude() -> Vec<Item> {
                 BI::Field { doc: vec![], blank: false, ty: Ty::Int, name: "f".into(), init: Some(id("bp")) },
                 BI::Field { doc: vec![], blank: false, ty: Ty::Int, name: "g".into(), init: Some(int(1)) },
             ]),
+        },
+        // a second class, for parent lists with two entries
+        Item::Class {
+            doc: vec![],
+            blank: false,
+            name: "Base2".into(),
+            targs: vec![TArg { ty: Ty::Int, name: "bq".into(), default: None }],
+            parents: vec![],
+            body: Some(vec![BI::Field { doc: vec![], blank: false, ty: Ty::Int, name: "h2".into(), init: Some(id("bq")) }]),
         },
         Item::Multiclass {
             doc: vec![],
@@ -552,6 +575,25 @@ pub fn declaration_variants() -> Vec<Vec<Item>> {
         },
         Item::Def { doc: vec![], blank: false, name: Some("dc".into()), parents: vec![CRef::with("C", vec![int(1), int(2)])], body: None },
     ]);
+    // a `!foreach` whose body has no computable type, in a defset member and in a class: what follows
+    // keeps its place in the outline
+    let fe = || E::BForeach("e".into(), Box::new(E::List(vec![int(1)])), Box::new(E::Cond(vec![(E::Bool(true), id("e"))])));
+    out.push(vec![
+        base.clone(),
+        Item::Defset {
+            ty: Ty::List(Box::new(Ty::Class("P".into()))),
+            name: "S".into(),
+            body: vec![Item::Def { doc: vec![], blank: false, name: Some("m1".into()), parents: vec![CRef::with("P", vec![int(1)])], body: Some(vec![field(Ty::List(Box::new(Ty::Int)), "l", Some(fe()), &[], false)]) }],
+        },
+        Item::Def { doc: vec![], blank: false, name: Some("after1".into()), parents: vec![CRef::with("P", vec![int(2)])], body: None },
+        Item::Def { doc: vec![], blank: false, name: Some("after2".into()), parents: vec![], body: Some(vec![field(Ty::Int, "own", Some(int(1)), &[], false)]) },
+    ]);
+    out.push(vec![
+        base.clone(),
+        Item::Class { doc: vec![], blank: false, name: "C".into(), targs: vec![], parents: vec![], body: Some(vec![field(Ty::List(Box::new(Ty::Int)), "l", Some(fe()), &[], false), field(Ty::Int, "z", Some(int(1)), &[], false)]) },
+        Item::Multiclass { doc: vec![], name: "MAfter".into(), targs: vec![TArg { ty: Ty::Int, name: "mt0".into(), default: None }], parents: vec![], body: vec![Item::Def { doc: vec![], blank: false, name: Some("_x".into()), parents: vec![CRef::with("P", vec![id("mt0")])], body: None }] },
+        Item::Def { doc: vec![], blank: false, name: Some("after".into()), parents: vec![CRef::with("C", vec![])], body: None },
+    ]);
     // defsets: empty, with named and anonymous defs, with a class, nested
     let d = |n: &str| Item::Def { doc: vec![], blank: false, name: Some(n.into()), parents: vec![CRef::with("P", vec![int(1)])], body: None };
     let anon = Item::Def { doc: vec![], blank: false, name: None, parents: vec![CRef::with("P", vec![int(2)])], body: None };
@@ -760,6 +802,10 @@ pub fn hover_programs(mut f: impl FnMut(&Program) -> bool) {
                         Item::Defvar { name: "v".into(), value: E::ClassVal("Q".into(), vec![E::ClassVal("P".into(), args.clone(), named_args.clone())], vec![]) },
                         Item::Foreach { var: "i".into(), list: E::List(vec![int(1)]), body: vec![Item::Def { doc: vec![], blank: false, name: Some("y".into()), parents: vec![CRef::with("P", vec![id("i")])], body: None }], braces: true },
                         Item::Defvar { name: "w".into(), value: E::Field(Box::new(id("x")), "h".into()) },
+                        Item::Class { doc: vec![], blank: false, name: "R".into(), targs: vec![TArg { ty: Ty::Class("P".into()), name: "rp".into(), default: None }, TArg { ty: Ty::Int, name: "ry".into(), default: None }], parents: vec![], body: None },
+                        Item::Def { doc: vec![], blank: false, name: Some("r".into()), parents: vec![CRef::with("R", vec![E::ClassVal("P".into(), args.clone(), named_args.clone()), int(5)])], body: None },
+                        Item::Class { doc: vec![], blank: false, name: "R2".into(), targs: vec![TArg { ty: Ty::Int, name: "ra".into(), default: None }, TArg { ty: Ty::Int, name: "rb".into(), default: Some(int(0)) }], parents: vec![], body: None },
+                        Item::Def { doc: vec![], blank: false, name: Some("r2".into()), parents: vec![CRef::with("R2", vec![E::Bang("!add".into(), None, vec![E::Field(Box::new(E::ClassVal("P".into(), vec![int(1), E::Str("s".into())], vec![])), "f".into()), int(1)])])], body: None },
                         Item::Defvar { name: "u".into(), value: E::List(vec![id("v"), id("S")]) },
                     ];
                     for layout in 0..2 {
